@@ -19,6 +19,21 @@ import (
 
 const verifDir = "/verif"
 
+// outDir / evidenceDir can be redirected (selftest runs against scratch copies must not touch the real evidence)
+func outDir() string {
+	if d := os.Getenv("VERIF_OUT"); d != "" {
+		return d
+	}
+	return filepath.Join(verifDir, "out")
+}
+
+func evidenceDir() string {
+	if d := os.Getenv("VERIF_EVIDENCE_DIR"); d != "" {
+		return d
+	}
+	return filepath.Join(verifDir, "evidence")
+}
+
 type FuncReport struct {
 	Key         string   `json:"function"`
 	SourceHash  string   `json:"source_sha256"`
@@ -166,8 +181,8 @@ func generate(w *World, cs *Contracts, ms *ModSets, o runOpts) ([]*Obligation, [
 			rep.Obligations++
 		}
 		if os.Getenv("GOVC_DUMP") != "" {
-			os.MkdirAll(filepath.Join(verifDir, "out", "ivl"), 0o755)
-			os.WriteFile(filepath.Join(verifDir, "out", "ivl", sanitize(key)+".smt2"), []byte(strings.Join(vc.cmds, "\n")), 0o644)
+			os.MkdirAll(filepath.Join(outDir(), "ivl"), 0o755)
+			os.WriteFile(filepath.Join(outDir(), "ivl", sanitize(key)+".smt2"), []byte(strings.Join(vc.cmds, "\n")), 0o644)
 		}
 	}
 	// writer closure of type invariants: invariants are assumed at entry of functions (holds) under visible-state
@@ -432,7 +447,7 @@ func verify(o runOpts) int {
 	ms := modsetAnalysis(w, cs)
 	tLoad := time.Since(t0).Seconds()
 	obls, reps, _, assumed := generate(w, cs, ms, o)
-	smtDir := filepath.Join(verifDir, "out", "smt", nonEmpty(o.property, "adhoc"))
+	smtDir := filepath.Join(outDir(), "smt", nonEmpty(o.property, "adhoc"))
 	os.RemoveAll(smtDir)
 	solverWall := solveAll(obls, smtDir, o)
 
@@ -544,9 +559,9 @@ func writeEvidence(o runOpts, obls []*Obligation, reps []*FuncReport, assumed ma
 		"wall_s":      wall,
 		"violations":  oc.violations,
 	}
-	os.MkdirAll(filepath.Join(verifDir, "evidence"), 0o755)
+	os.MkdirAll(evidenceDir(), 0o755)
 	data, _ := json.MarshalIndent(ev, "", " ")
-	os.WriteFile(filepath.Join(verifDir, "evidence", o.property+".json"), data, 0o644)
+	os.WriteFile(filepath.Join(evidenceDir(), o.property+".json"), data, 0o644)
 }
 
 // propertyNotes reads /verif/props/<id>.json (not_decided, bounded) if present.
